@@ -267,6 +267,40 @@ def main(argv=None):
     for slug, (k, n) in sorted(known_hit.items()):
         lines.append("KNOWN-FINDING: property=%s %s [%s; %d witnesses this run]"
                      % (prop, k["text"], slug, n))
+    # ---- confirm by replay: a violation must reproduce from its recorded
+    # case in a fresh process before it is believed (crashes and hangs were
+    # already reproduced by the journal re-run)
+    confirmed, dropped = [], 0
+    for i, v in enumerate(reported):
+        kind = v["record"].get("kind")
+        if kind in ("crash", "hang") or i >= 3 or \
+                os.environ.get("VERIF_NO_CONFIRM"):
+            confirmed.append(v)
+            continue
+        rec = dict(v["record"])
+        rec.update({"property": prop, "sig": v["sig"], "msg": v["msg"],
+                    "variant": variant})
+        tmpf = os.path.join(rundir, "confirm-%d.json" % i)
+        with open(tmpf, "w") as f:
+            json.dump(rec, f, default=repr)
+        try:
+            p = subprocess.run([sys.executable, "-m", "mc.replay_worker",
+                                modname, tmpf], cwd=VERIF,
+                               env=worker_env(wext, variant),
+                               capture_output=True, text=True, timeout=600)
+            reproduced = p.returncode == 1 and "VIOLATION reproduced" in \
+                p.stdout
+            crashed = p.returncode not in (0, 1)
+        except subprocess.TimeoutExpired:
+            reproduced, crashed = False, True
+        if reproduced or crashed:
+            confirmed.append(v)
+        else:
+            dropped += 1
+            notes.append("violation %s did not reproduce on replay; dropped"
+                         % v["sig"][:80])
+    nondeterministic = bool(reported) and not confirmed
+    reported = confirmed
     for v in reported[:25]:
         rec = dict(v["record"])
         rec.update({"property": prop, "sig": v["sig"], "msg": v["msg"],
@@ -333,6 +367,10 @@ def main(argv=None):
         shutil.rmtree(rundir, ignore_errors=True)
     if reported:
         raise SystemExit(1)
+    if nondeterministic:
+        print("harness nondeterminism: %d violation(s) did not reproduce on "
+              "replay" % dropped)
+        raise SystemExit(2)
     if ev_problem:
         print("harness error:", ev_problem)
         raise SystemExit(2)
